@@ -547,6 +547,16 @@ func (env *SpecEnv) call(n *ast.CallExpr) Val {
 	case "byte", "uint8":
 		need(1)
 		return vInt(sApp("mod", arg(0).T, "256"))
+	case "atentry":
+		need(1)
+		if id, ok := n.Args[0].(*ast.Ident); ok {
+			if v, ok := env.vars["@entry."+id.Name]; ok {
+				return v
+			}
+			env.fail("atentry(%s): not a loop variable of the loop this invariant belongs to", id.Name)
+		}
+		env.fail("atentry expects a variable name")
+		return Val{}
 	case "old":
 		need(1)
 		sub := env.fork()
